@@ -378,7 +378,7 @@ func ruleBlockWorkerLoop(c *core.Ctx) {
 		c.Fail("DOM/block-worker", key+":every-selected-ledger", pos(c, d.Decl), msg)
 	default:
 		if len(scopeCalls(fnScope(c, d, 2), named("processLedger"))) == 0 {
-			c.Fail("DOM/block-worker", key+":every-selected-ledger", pos(c, d.Decl), "the block worker no longer processes the ledgers it selects")
+			failOrGone(c, pkgStorageTop, "processLedger", "DOM/block-worker", key+":every-selected-ledger", pos(c, d.Decl), "the block worker no longer processes the ledgers it selects")
 		} else {
 			c.Unrecognised("DOM/block-worker", key+":every-selected-ledger", pos(c, d.Decl), "the loop over the page of selected ledgers is not in a shape the rule reads")
 		}
